@@ -1,26 +1,58 @@
 import CollectionsC.Proofs.ArrayStep
 import CollectionsC.Proofs.Growth
-/-! Counting re-allocations (C20): `Mem.nalloc` counts the successful allocator calls; `add` makes
-one exactly when it replaces the buffer.  With a growth function that at least doubles, `n` appends
-cause at most `log2 (size) + 1` re-allocations. -/
+/-! Counting re-allocations (C20).  `allocs t m` is the number of successful allocator calls through
+the triple `t` (`Mem.nalloc` for the configured triple, `Mem.lalloc` for the C library); `add` makes
+one exactly when it replaces the buffer.  With a growth function that at least doubles **on the
+capacities actually reached** (below `size + n`), `n` appends cause at most `log2 (size + n) + 1`
+re-allocations, under every refusal schedule. -/
 namespace CC.Arr
 open CC
 
-theorem alloc_nalloc (m : Mem) :
-    (m.alloc.1 = true → m.alloc.2.nalloc = m.nalloc + 1) ∧ (m.alloc.1 = false → m.alloc.2.nalloc = m.nalloc) := by
-  unfold Mem.alloc; split <;> simp
+/-- successful allocator calls through the triple -/
+def allocs (t : Triple) (m : Mem) : Nat := match t with | .conf => m.nalloc | .libc => m.lalloc
 
-theorem free_nalloc (m : Mem) : m.free.nalloc = m.nalloc := by
-  unfold Mem.free; split <;> rfl
+theorem allocs_allocT_ok (m : Mem) (t : Triple) (h : (m.allocT t).1 = true) :
+    allocs t (m.allocT t).2 = allocs t m + 1 := by
+  cases t with
+  | conf => simp only [Mem.allocT_conf, allocs] at h ⊢; unfold Mem.alloc at h ⊢; split <;> simp_all
+  | libc => rfl
 
-theorem check_nalloc (m : Mem) (b : Bool) : (m.check b).nalloc = m.nalloc := by
-  cases b <;> rfl
+theorem allocs_allocT_refused (m : Mem) (t : Triple) (h : (m.allocT t).1 = false) :
+    allocs t (m.allocT t).2 = allocs t m := by
+  cases t with
+  | conf => simp only [Mem.allocT_conf, allocs] at h ⊢; unfold Mem.alloc at h ⊢; split <;> simp_all
+  | libc => simp [Mem.allocT] at h
+
+theorem allocs_freeT (m : Mem) (t : Triple) : allocs t (m.freeT t) = allocs t m := by
+  cases t with
+  | conf => simp only [Mem.freeT_conf, allocs]; unfold Mem.free; split <;> rfl
+  | libc => simp only [Mem.freeT, allocs]; split <;> rfl
+
+theorem allocs_check (t : Triple) (m : Mem) (b : Bool) : allocs t (m.check b) = allocs t m := by
+  cases t <;> cases b <;> rfl
+
+theorem expandCapacity_triple (a : Arr) (m : Mem) : (a.expandCapacity m).2.1.triple = a.triple := by
+  by_cases hmax : a.AtLimit
+  · rw [expandCapacity_max a m hmax]
+  · cases hal : (m.allocT a.triple).1
+    · rw [expandCapacity_refused a m hmax hal]
+    · rw [expandCapacity_success a m hmax hal]
+
+theorem add_triple (a : Arr) (x : Nat) (m : Mem) : (a.add x m).2.1.triple = a.triple := by
+  have he := expandCapacity_triple a m
+  unfold add
+  split
+  · simp only
+    split
+    · exact he
+    · simp only [store]; exact he
+  · rfl
 
 /-- `add` performs one successful allocation exactly when it changes the capacity -/
-theorem add_nalloc (a : Arr) (x : Nat) (m : Mem) (hinv : a.Inv) :
-    ((a.add x m).2.1.capacity = a.capacity ∧ (a.add x m).2.2.nalloc = m.nalloc) ∨
+theorem add_allocs (a : Arr) (x : Nat) (m : Mem) (hinv : a.Inv) :
+    ((a.add x m).2.1.capacity = a.capacity ∧ allocs a.triple (a.add x m).2.2 = allocs a.triple m) ∨
     ((a.add x m).1 = .ok ∧ a.size = a.capacity ∧ (a.add x m).2.1.capacity = a.newCapacity ∧
-      (a.add x m).2.2.nalloc = m.nalloc + 1) := by
+      allocs a.triple (a.add x m).2.2 = allocs a.triple m + 1) := by
   obtain ⟨h1, h2, h3, h4⟩ := hinv
   by_cases hroom : a.size < a.capacity
   · left
@@ -29,18 +61,18 @@ theorem add_nalloc (a : Arr) (x : Nat) (m : Mem) (hinv : a.Inv) :
   · rw [add_full a x m (by omega)]
     by_cases hmax : a.AtLimit
     · left; rw [expandCapacity_max a m hmax]; exact ⟨rfl, rfl⟩
-    · cases hal : m.alloc.1
+    · cases hal : (m.allocT a.triple).1
       · left
         rw [expandCapacity_refused a m hmax hal]
-        exact ⟨rfl, (alloc_nalloc m).2 hal⟩
+        exact ⟨rfl, allocs_allocT_refused m a.triple hal⟩
       · right
         have hgt := newCapacity_gt a (by have := max8_lt; omega)
         rw [expandCapacity_success a m hmax hal]
         simp only [bne_self_eq_false, Bool.false_eq_true, if_false]
         rw [store_eq _ x _ (by simp; omega)]
         refine ⟨rfl, by omega, rfl, ?_⟩
-        simp only [free_nalloc, check_nalloc]
-        exact (alloc_nalloc m).1 hal
+        simp only [allocs_freeT, allocs_check]
+        exact allocs_allocT_ok m a.triple hal
 
 /-- appending a list of elements one by one (statuses ignored) -/
 def addAll (a : Arr) (xs : List Nat) (m : Mem) : Arr × Mem :=
@@ -49,22 +81,24 @@ def addAll (a : Arr) (xs : List Nat) (m : Mem) : Arr × Mem :=
   | x :: xs => addAll (a.add x m).2.1 xs (a.add x m).2.2
 
 /-- doubling invariant: after `k` re-allocations the capacity is at least `c0 * 2^k`, and the last
-re-allocation happened at a size of at least `c0 * 2^(k-1)` -/
-theorem addAll_doubling (c0 n0 : Nat) : ∀ (xs : List Nat) (a : Arr) (m : Mem), a.Inv → 0 < m.live →
-    (∀ c, 2 * c ≤ a.grow c) →
-    n0 ≤ m.nalloc → c0 * 2 ^ (m.nalloc - n0) ≤ a.capacity →
-    (1 ≤ m.nalloc - n0 → c0 * 2 ^ (m.nalloc - n0 - 1) < a.size) →
-    (a.addAll xs m).1.Inv ∧ n0 ≤ (a.addAll xs m).2.nalloc ∧
-    c0 * 2 ^ ((a.addAll xs m).2.nalloc - n0) ≤ (a.addAll xs m).1.capacity ∧
-    (1 ≤ (a.addAll xs m).2.nalloc - n0 → c0 * 2 ^ ((a.addAll xs m).2.nalloc - n0 - 1) < (a.addAll xs m).1.size) ∧
+re-allocation happened at a size of at least `c0 * 2^(k-1)`.  `hd` is needed only at the capacities
+at which a growth step can happen, i.e. below the bound `B` on the final size. -/
+theorem addAll_doubling (c0 n0 B : Nat) (t : Triple) : ∀ (xs : List Nat) (a : Arr) (m : Mem), a.Inv → a.triple = t →
+    (∀ c, c < B → 2 * c ≤ a.grow c) → a.size + xs.length ≤ B →
+    n0 ≤ allocs t m → c0 * 2 ^ (allocs t m - n0) ≤ a.capacity →
+    (1 ≤ allocs t m - n0 → c0 * 2 ^ (allocs t m - n0 - 1) < a.size) →
+    (a.addAll xs m).1.Inv ∧ n0 ≤ allocs t (a.addAll xs m).2 ∧
+    c0 * 2 ^ (allocs t (a.addAll xs m).2 - n0) ≤ (a.addAll xs m).1.capacity ∧
+    (1 ≤ allocs t (a.addAll xs m).2 - n0 → c0 * 2 ^ (allocs t (a.addAll xs m).2 - n0 - 1) < (a.addAll xs m).1.size) ∧
     (a.addAll xs m).1.size ≤ a.size + xs.length := by
   intro xs
   induction xs with
-  | nil => intro a m hinv _ _ h1 h2 h3; exact ⟨hinv, h1, h2, h3, by simp [addAll]⟩
+  | nil => intro a m hinv _ _ _ h1 h2 h3; exact ⟨hinv, h1, h2, h3, by simp [addAll]⟩
   | cons x xs ih =>
-    intro a m hinv hlive hd h1 h2 h3
+    intro a m hinv ht hd hB h1 h2 h3
     simp only [addAll]
-    obtain ⟨sp, sl, sf⟩ := add_spec a x m hinv hlive
+    simp only [List.length_cons] at hB
+    obtain ⟨sp, sl, sf⟩ := add_spec a x m hinv
     have hinv' : (a.add x m).2.1.Inv := by
       rcases sp with ⟨_, _, hgf⟩ | ⟨_, hsame⟩
       · exact hgf.inv hinv
@@ -77,122 +111,133 @@ theorem addAll_doubling (c0 n0 : Nat) : ∀ (xs : List Nat) (a : Arr) (m : Mem),
       rcases sp with ⟨_, _, hgf⟩ | ⟨_, hsame⟩
       · have := hgf.1; omega
       · rw [hsame]; omega
-    have key : n0 ≤ (a.add x m).2.2.nalloc ∧
-        c0 * 2 ^ ((a.add x m).2.2.nalloc - n0) ≤ (a.add x m).2.1.capacity ∧
-        (1 ≤ (a.add x m).2.2.nalloc - n0 → c0 * 2 ^ ((a.add x m).2.2.nalloc - n0 - 1) < (a.add x m).2.1.size) := by
-      rcases add_nalloc a x m hinv with ⟨k1, k2⟩ | ⟨kok, k1, k2, k3⟩
-      · rw [k1, k2]
+    have key : n0 ≤ allocs t (a.add x m).2.2 ∧
+        c0 * 2 ^ (allocs t (a.add x m).2.2 - n0) ≤ (a.add x m).2.1.capacity ∧
+        (1 ≤ allocs t (a.add x m).2.2 - n0 → c0 * 2 ^ (allocs t (a.add x m).2.2 - n0 - 1) < (a.add x m).2.1.size) := by
+      rcases add_allocs a x m hinv with ⟨k1, k2⟩ | ⟨kok, k1, k2, k3⟩
+      · rw [ht] at k2
+        rw [k1, k2]
         exact ⟨h1, h2, fun h => Nat.lt_of_lt_of_le (h3 h) hsize.2⟩
-      · have hsz : (a.add x m).2.1.size = a.size + 1 := by
+      · rw [ht] at k3
+        have hsz : (a.add x m).2.1.size = a.size + 1 := by
           rcases sp with ⟨_, _, hgf⟩ | ⟨hb, _⟩
           · exact hgf.1
           · rcases hb.1 with ⟨h, _⟩ | ⟨h, _⟩ <;> rw [h] at kok <;> simp at kok
         have hnc : 2 * a.capacity ≤ a.newCapacity := by
           unfold newCapacity
-          have := hd a.capacity
+          have := hd a.capacity (by omega)
           have := hinv.2.2.1
           simp only
           split <;> omega
         rw [k2, k3, hsz]
-        have e : m.nalloc + 1 - n0 = (m.nalloc - n0) + 1 := by omega
+        have e : allocs t m + 1 - n0 = (allocs t m - n0) + 1 := by omega
         refine ⟨by omega, ?_, fun _ => ?_⟩
         · rw [e, Nat.pow_succ, ← Nat.mul_assoc]; omega
         · rw [e, Nat.add_sub_cancel]; omega
-    have := ih (a.add x m).2.1 (a.add x m).2.2 hinv' (by omega) (by rw [hgrow]; exact hd)
+    have := ih (a.add x m).2.1 (a.add x m).2.2 hinv' (by rw [add_triple, ht]) (by rw [hgrow]; exact hd) (by omega)
       key.1 key.2.1 key.2.2
     obtain ⟨t1, t2, t3, t4, t5⟩ := this
     refine ⟨t1, t2, t3, t4, ?_⟩
     simp only [List.length_cons]; omega
 
-/-- **logarithmic number of re-allocations** for a growth function that at least doubles: appending
-any `n` elements to an array of capacity `c0 ≥ 1` performs at most `log2 (final size) + 1`
-successful allocations (0 when nothing was re-allocated) -/
-theorem addAll_realloc_log (a : Arr) (xs : List Nat) (m : Mem) (hinv : a.Inv) (hlive : 0 < m.live)
-    (hd : ∀ c, 2 * c ≤ a.grow c) :
-    (a.addAll xs m).2.nalloc - m.nalloc ≤ Nat.log2 (a.size + xs.length) + 1 ∧
+/-- **logarithmic number of re-allocations**: if the growth function at least doubles every capacity
+below the final size bound (`c < size + n`; the capacities at which a growth step can happen),
+appending any `n` elements performs at most `log2 (size + n) + 1` successful buffer allocations —
+for every refusal schedule and either allocator triple -/
+theorem addAll_realloc_log (a : Arr) (xs : List Nat) (m : Mem) (hinv : a.Inv)
+    (hd : ∀ c, c < a.size + xs.length → 2 * c ≤ a.grow c) :
+    allocs a.triple (a.addAll xs m).2 - allocs a.triple m ≤ Nat.log2 (a.size + xs.length) + 1 ∧
     (a.addAll xs m).1.size ≤ (a.addAll xs m).1.capacity := by
-  have h := addAll_doubling a.capacity m.nalloc xs a m hinv hlive hd (Nat.le_refl _) (by simp)
-    (fun h => by omega)
+  have h := addAll_doubling a.capacity (allocs a.triple m) (a.size + xs.length) a.triple xs a m hinv rfl hd
+    (Nat.le_refl _) (Nat.le_refl _) (by simp) (fun h => by omega)
   obtain ⟨t1, t2, t3, t4, t5⟩ := h
   refine ⟨?_, t1.1⟩
-  by_cases hk : (a.addAll xs m).2.nalloc - m.nalloc = 0
+  by_cases hk : allocs a.triple (a.addAll xs m).2 - allocs a.triple m = 0
   · omega
   · have h1 := t4 (by omega)
     have hc : 1 ≤ a.capacity := hinv.2.2.1
-    have hpow : 2 ^ ((a.addAll xs m).2.nalloc - m.nalloc - 1) ≤ a.size + xs.length := by
-      have : 2 ^ ((a.addAll xs m).2.nalloc - m.nalloc - 1) ≤ a.capacity * 2 ^ ((a.addAll xs m).2.nalloc - m.nalloc - 1) :=
+    have hpow : 2 ^ (allocs a.triple (a.addAll xs m).2 - allocs a.triple m - 1) ≤ a.size + xs.length := by
+      have : 2 ^ (allocs a.triple (a.addAll xs m).2 - allocs a.triple m - 1) ≤
+          a.capacity * 2 ^ (allocs a.triple (a.addAll xs m).2 - allocs a.triple m - 1) :=
         Nat.le_mul_of_pos_left _ hc
       omega
     have hne : a.size + xs.length ≠ 0 := by
-      have : 0 < 2 ^ ((a.addAll xs m).2.nalloc - m.nalloc - 1) := Nat.pow_pos (by decide)
+      have : 0 < 2 ^ (allocs a.triple (a.addAll xs m).2 - allocs a.triple m - 1) := Nat.pow_pos (by decide)
       omega
     have := (Nat.le_log2 hne).2 hpow
     omega
 
-/-- with a growth function that at least doubles, the requested capacity is the float product -/
-theorem newCapacity_of_doubling (a : Arr) (hc : 1 ≤ a.capacity) (hd : ∀ c, 2 * c ≤ a.grow c) :
+/-- with a growth function that at least doubles at the current capacity, the requested capacity is
+the float product -/
+theorem newCapacity_of_doubling (a : Arr) (hc : 1 ≤ a.capacity) (hd : 2 * a.capacity ≤ a.grow a.capacity) :
     a.newCapacity = a.grow a.capacity := by
   unfold newCapacity
-  have := hd a.capacity
   simp only
   split
   · omega
   · rfl
 
-theorem free_sched' (m : Mem) : m.free.sched = m.sched := by unfold Mem.free; split <;> rfl
+theorem sched_freeT (m : Mem) (t : Triple) : (m.freeT t).sched = m.sched := by
+  cases t with
+  | conf => simp only [Mem.freeT_conf]; unfold Mem.free; split <;> rfl
+  | libc => simp only [Mem.freeT]; split <;> rfl
 
-/-- **the concrete append process is the abstract capacity process of `Proofs/Growth.lean`**:
-under an allocator that never refuses and a doubling growth function that stays below the byte-size
-limit, `n` appends leave exactly the size, capacity and number of buffer allocations of
-`CC.Growth.appends` -/
-theorem addAll_eq_appends : ∀ (xs : List Nat) (a : Arr) (m : Mem), a.Inv → 0 < m.live → m.sched = [] →
-    (∀ c, 2 * c ≤ a.grow c) → (∀ c, a.grow c ≤ Gen.CC_MAX_ELEMENTS / 8) →
+theorem allocT_never_refuses (m : Mem) (t : Triple) (hs : m.sched = []) :
+    (m.allocT t).1 = true ∧ (m.allocT t).2.sched = [] := by
+  cases t with
+  | conf => exact Mem.alloc_nil m hs
+  | libc => exact ⟨rfl, hs⟩
+
+/-- **the concrete append process is the abstract capacity process of `Proofs/Growth.lean`**: under
+an allocator that never refuses, with a growth function that — on the capacities below the final
+size `size + n` — at least doubles and stays within the byte-size limit, `n` appends leave exactly
+the size, capacity and number of buffer allocations of `CC.Growth.appends`.  (The hypotheses are
+satisfiable: `fun c => 2 * c` with `2 * (size + n) ≤ CC_MAX_ELEMENTS / 8`, see `C20Array`.) -/
+theorem addAll_eq_appends : ∀ (xs : List Nat) (a : Arr) (m : Mem), a.Inv → m.sched = [] →
+    (∀ c, c < a.size + xs.length → 2 * c ≤ a.grow c ∧ a.grow c ≤ Gen.CC_MAX_ELEMENTS / 8) →
     (a.addAll xs m).1.size = (Growth.appends a.grow a.size a.capacity xs.length).size ∧
     (a.addAll xs m).1.capacity = (Growth.appends a.grow a.size a.capacity xs.length).cap ∧
-    (a.addAll xs m).2.nalloc = m.nalloc + (Growth.appends a.grow a.size a.capacity xs.length).reallocs := by
+    allocs a.triple (a.addAll xs m).2 = allocs a.triple m + (Growth.appends a.grow a.size a.capacity xs.length).reallocs := by
   intro xs
   induction xs with
-  | nil => intro a m _ _ _ _ _; simp [addAll, Growth.appends]
+  | nil => intro a m _ _ _; simp [addAll, Growth.appends]
   | cons x xs ih =>
-    intro a m hinv hlive hs hd hb
+    intro a m hinv hs hd
     obtain ⟨h1, h2, h3, h4⟩ := hinv
-    simp only [addAll, List.length_cons]
+    simp only [addAll, List.length_cons] at hd ⊢
     unfold Growth.appends
     by_cases hroom : a.size < a.capacity
     · simp only [hroom, if_true]
       have hl : a.size < a.buf.length := by omega
       rw [add_room a x m hroom, store_eq a x m hl]
-      have := ih { a with buf := a.buf.put a.size x, size := a.size + 1 } m
-        ⟨by simp only; omega, by simp only [Buf.length_put]; omega, h3, h4⟩ hlive hs hd hb
-      exact this
+      exact ih { a with buf := a.buf.put a.size x, size := a.size + 1 } m
+        ⟨by simp only; omega, by simp only [Buf.length_put]; omega, h3, h4⟩ hs
+        (fun c hc => hd c (by simp only at hc; omega))
     · simp only [hroom, if_false]
+      have hcap : a.capacity < a.size + (xs.length + 1) := by omega
+      obtain ⟨hdc, hbc⟩ := hd a.capacity hcap
+      have hnc := newCapacity_of_doubling a h3 hdc
       have hnl : ¬ a.AtLimit := by
         intro hl
         rcases hl with hl | hl
         · have := max8_lt; omega
-        · rw [newCapacity_of_doubling a h3 hd] at hl
-          have := hb a.capacity; omega
-      have hal := (Mem.alloc_nil m hs)
-      have hnc := newCapacity_of_doubling a h3 hd
-      have hgt := hd a.capacity
+        · rw [hnc] at hl; omega
+      have hal := allocT_never_refuses m a.triple hs
       rw [add_full a x m (by omega), expandCapacity_success a m hnl hal.1]
       simp only [bne_self_eq_false, Bool.false_eq_true, if_false]
       rw [store_eq _ x _ (by simp; omega)]
       have hc : (decide (a.size ≤ a.buf.length) && decide (a.size ≤ a.newCapacity)) = true := by simp; omega
       simp only [hc, Mem.check_true]
-      have hlive' : 0 < m.alloc.2.free.live := by
-        have e := Mem.alloc_fst_true m hal.1
-        have f := free_live m.alloc.2 (by omega)
-        omega
-      have hs' : m.alloc.2.free.sched = [] := by rw [free_sched']; exact hal.2
+      have hs' : ((m.allocT a.triple).2.freeT a.triple).sched = [] := by rw [sched_freeT]; exact hal.2
       have := ih { a with buf := ((Buf.mk a.newCapacity : Buf Nat).memcpy 0 a.buf 0 a.size).put a.size x,
-                          capacity := a.newCapacity, size := a.size + 1 } m.alloc.2.free
-        ⟨by simp only; omega, by simp, by simp only; omega, by simp only; rw [hnc]; exact hb _⟩ hlive' hs' hd hb
+                          capacity := a.newCapacity, size := a.size + 1 } ((m.allocT a.triple).2.freeT a.triple)
+        ⟨by simp only; omega, by simp, by simp only; omega, by simp only; rw [hnc]; exact hbc⟩ hs'
+        (fun c hc => hd c (by simp only at hc; omega))
       simp only at this
       rw [hnc] at this ⊢
       obtain ⟨t1, t2, t3⟩ := this
       refine ⟨t1, t2, ?_⟩
-      rw [t3, free_nalloc, (alloc_nalloc m).1 hal.1]
+      rw [t3, allocs_freeT, allocs_allocT_ok m a.triple hal.1]
       omega
 
 end CC.Arr
